@@ -10,10 +10,10 @@ META = {
              'symtable.symtable() of the same program with list/set/dict comprehensions rewritten to generator expressions (PEP 709 '
              'inlining removed), compiler-internal names filtered, class-private names mangled; (b) the Name/arg nodes yielded by '
              'walk(scope=True) compared with a reference owner map computed by an independent visitor that is itself validated against '
-             'symtable per scope (a scope where the visitor and symtable disagree is not judged). A cell is (scope kind, feature set).'),
+             'symtable per scope (a scope where the visitor and symtable disagree is not judged). A cell is (scope kind, feature set). Plus generated scoping programs: every name of a 5-name pool used in a random subset of ~27 binding/reference forms (assignment, del, augmented, global/nonlocal, for/with/import/except/walrus targets, comprehension variables and nested first iterables, lambda and def parameters/defaults/annotations, class bodies) in nested scopes up to depth 3; programs the compiler rejects are skipped.'),
     'budget': {'quick': 40, 'thorough': 600},
-    'floors': {'quick': {'scopes_names_compared': 3000, 'scopes_walk_compared': 2500, 'programs': 40},
-               'thorough': {'scopes_names_compared': 30000, 'scopes_walk_compared': 25000, 'programs': 300}},
+    'floors': {'quick': {'generated_scope_programs': 600, 'scopes_names_compared': 3000, 'scopes_walk_compared': 2500, 'programs': 40},
+               'thorough': {'generated_scope_programs': 10000, 'scopes_names_compared': 30000, 'scopes_walk_compared': 25000, 'programs': 300}},
     'programs_counter': 'programs',
     'assumptions': ['CPython 3.12 symtable is the reference; list/set/dict comprehensions are compared through the equivalent generator expression',
                     'annotation scopes of generic defs/classes (PEP 695) are merged with the body scope for the type-parameter names'],
